@@ -50,6 +50,9 @@ func checkC02(c *Ctx) error {
 		}
 		mu.Unlock()
 	}
+	// what the command prints is the library result byte for byte: programs with a percent sign always
+	// go through the CLI binary too (the library result alone would not show a formatted print)
+	rp.cliAlways = func(cs *AsmCase) bool { return strings.Contains(strings.Join(cs.Lines, "\n"), "%") }
 	rp.nontriv = func(cs *AsmCase) bool {
 		t := strings.Join(cs.Lines, "\n")
 		return strings.ContainsAny(t, "\"\\") || strings.Contains(t, "##!+")
@@ -189,15 +192,29 @@ func cleanupConformance(c *Ctx, cleanLen string) (*TLCStats, error) {
 			}
 		}()
 	}
-	cl, err := c.runTLC(TLCRun{Module: "MC_Cleanup", Seed: c.Seed, Timeout: 40 * time.Minute, Workers: 8,
-		Constants: map[string]string{"MaxLen": "= " + cleanLen, "Export": "= TRUE"}, Invs: []string{"NoCrash", "Hygiene", "Terminates", "ExportCase"}}, func(raw []byte) error {
+	onClean := func(raw []byte) error {
 		var cc cleanCase
 		if err := mustJSON(raw, &cc); err != nil {
 			return err
 		}
 		cch <- cc
 		return nil
-	})
+	}
+	cl, err := c.runTLC(TLCRun{Module: "MC_Cleanup", Seed: c.Seed, Timeout: 40 * time.Minute, Workers: 8,
+		Constants: map[string]string{"MaxLen": "= " + cleanLen, "Export": "= TRUE", "Mode": `= "chars"`}, Invs: []string{"NoCrash", "Hygiene", "Terminates", "ExportCase"}}, onClean)
+	if err == nil {
+		tokLen := "3"
+		if c.Tier == "thorough" {
+			tokLen = "4"
+		}
+		var cl2 *TLCStats
+		cl2, err = c.runTLC(TLCRun{Module: "MC_Cleanup", Seed: c.Seed, Timeout: 40 * time.Minute, Workers: 8,
+			Constants: map[string]string{"MaxLen": "= " + tokLen, "Export": "= TRUE", "Mode": `= "tokens"`}, Invs: []string{"NoCrash", "Hygiene", "Terminates", "ExportCase"}}, onClean)
+		if err == nil {
+			cl.Distinct += cl2.Distinct
+			cl.Generated += cl2.Generated
+		}
+	}
 	close(cch)
 	cwg.Wait()
 	cpool.close()
